@@ -42,6 +42,13 @@ class EvalModel:
         ctor = [F.fns[p] for p in self.cg.edges[self.into_iter.path]
                 if F.fns[p].local_ty(0) == self.iter_ty]
         self.ctor = ctor[0] if len(ctor) == 1 else self.into_iter
+        # .. looking through forwarders (`into_iter(self)` -> `(&self).into_iter()` -> `self.iter()` -> `Iterator::new(self)`):
+        # the constructor is the body that builds the struct literal
+        for _ in range(4):
+            nxt = I.forwarding_target(F, self.ctor)
+            if nxt is None or nxt.local_ty(0) != self.iter_ty:
+                break
+            self.ctor = nxt
         self._fields()
 
     # ------------------------------------------------------------------------------
